@@ -255,6 +255,31 @@ def relations(rng, tier, rpt):
             pass
         except Exception as ex:  # noqa
             rep("hardened derivation from a converted object raises the wrong error", name, type(ex).__name__, "Bip32KeyError")
+    # hand-supplied BIP32-Ed25519 parents (raw key + chain code) whose left half sits at the top of the range: a private child either is
+    # refused with the key error or has the public key the public-only parent derives (bit 255 is not a place where the two may part)
+    import bip_utils as _B
+    nk = 0
+    for cls in (_B.Bip32KholawEd25519, _B.CardanoIcarusBip32):
+        for kl in (2**255 - 8, 2**255 - 2**200, 2**255 - 2**227 - 8, 2**254, 2**254 + 2**253, 2**255, 2**255 + 8, 2**256 - 8, 8, rng.getrandbits(255) & ~7):
+            kr, cc = bytes(rng.randrange(256) for _ in range(32)), bytes(rng.randrange(256) for _ in range(32))
+            kd = _B.Bip32KeyData(chain_code=cc)
+            try:
+                par = cls.FromPrivateKey(kl.to_bytes(32, "little") + kr, kd)
+                pub = cls.FromPublicKey(par.PublicKey().RawCompressed().ToBytes(), kd)
+            except Exception:  # noqa
+                continue
+            for idx in (0, 1, 7, 2**31 - 1):
+                nk += 1
+                try:
+                    want = par.ChildKey(idx)
+                except _B.Bip32KeyError:
+                    continue
+                got = pub.ChildKey(idx)
+                if pub_view(got)[:2] != pub_view(want)[:2]:
+                    rep("%s: the public key of a private child differs from the child of the public-only parent (raw parent key, left half %s)" % (cls.__name__, hex(kl)),
+                        "kL=%s kR=%s cc=%s index=%d" % (hex(kl), kr.hex(), cc.hex(), idx), pub_view(got)[0].hex(), pub_view(want)[0].hex())
+                    break
+    rpt.extra["raw_kholaw_parent_checks"] = nk
     rpt.extra["impl_relation_checks"] = n
     rpt.extra["known_finding_instances"] = known
     return bad[:8]
